@@ -458,8 +458,16 @@ class C10(E1Check):
                 if spec["filter"] != "none" and not st.get("unattributed"):
                     backlog = len(accepted) - sum(1 for x in pulled_idx if x < j)
                     # the consumer is parked in its receive with nothing buffered: the event is handed to it directly, whatever the queue size
-                    last = next((e2[0] for e2 in reversed(tr[:j]) if e2[0] in ("sub-recv", "sub-got") and e2[1] == i), None)
-                    if warned and backlog == 0 and last == "sub-recv" and not in_limbo:
+                    # "parked" must be certain: the subscriber began (or resumed, after a filtered-out event) its receive, then the loop
+                    # went quiescent (an environment event that was NOT injected - anyio's receive() yields once before it parks), and
+                    # nothing has been dispatched to it since
+                    la = next((x for x in range(j - 1, -1, -1) if tr[x][0] in ("sub-recv", "sub-got", "pulled") and tr[x][1] == i), None)
+                    parked = False
+                    if la is not None and tr[la][0] in ("sub-recv", "pulled"):
+                        qe = next((x for x in range(la + 1, j) if tr[x][0] == "env" and x not in env.injected), None)
+                        if qe is not None and not any(tr[x][0] == "disp+" and (tr[x][2], tr[x][3]) in mine for x in range(qe, j)):
+                            parked = True
+                    if warned and backlog == 0 and parked and not in_limbo:
                         fail("overflow", f"subscriber {i} (queue {spec['q']}) lost event {n} although it was waiting for an event with nothing buffered")
                     if warned and backlog < spec["q"] and not in_limbo:
                         fail("overflow", f"subscriber {i} (queue {spec['q']}) lost event {n} with a backlog of only {backlog}")
